@@ -1,8 +1,145 @@
-"""Enumeration group `rawcls` (draft)"""
-_T = ['pools_without_long_double', 'pools_with_long_double', 'class_level_attributes', 'field_and_method_attributes', 'code_attributes', 'stack_map_frames',
-      'annotations_and_element_values', 'modules_and_records', 'several_attributes_together', 'attributes_with_long_double_pool', 'counts_at_their_bounds',
-      'counts_at_their_bounds_with_long_double_pool', 'raw_values_that_are_no_well_formed_files', 'corpus_class_files']
+"""Enumeration group `rawcls`: C20 "raw_class_file reads and writes class files byte-exactly" on the public API
+raw_class_file::ClassFile::{read, write, to_bytes, length} (raw_class_file/src/lib.rs, macros.rs)."""
+
+_ORACLE = ('Oracle (own byte builder written from JVMS 4.1, 4.4, 4.5, 4.6, 4.7.2-4.7.31; own conversion of the same model into the crate\'s value through '
+           'its public fields): for every class of the bound (1) read(bytes) is Ok and consumes the whole file, (5) the value read is the value the file '
+           'denotes item by item (JVMS item name = field name), (2) write(read(bytes)) == bytes and to_bytes gives the same bytes, (3) length() == number '
+           'of bytes written, (4) read(write(v)) == v; for the value built directly through the public fields (6) write(v) == the bytes of the own builder '
+           '(every count, every attribute_length, constant_pool_count as JVMS prescribes), (7) length() == bytes written, (8) read(write(v)) == v; no panic.')
+_BASE = ('every class has the 20 one-slot base entries Utf8 A, I, ()V, x, Class, 2 NameAndType, Fieldref, Methodref, Integer, Float, String, MethodHandle, '
+         'MethodType, Module, Package, Utf8 LA;, InvokeDynamic, Dynamic, InterfaceMethodref, followed by one Utf8 entry per attribute name used (order of '
+         'first use); every index item of the bodies points to a base entry of the kind JVMS asks for (or is 0 where JVMS allows 0)')
+
 GROUP = dict(
     crate='raw_class_file', file='raw_class_file/src/lib.rs', harness_file='rawcls.rs',
-    functions=[], trusted=[],
-    tests=[dict(name=n, props=['C20'], tier='quick', timeout=600, text=n, bound='draft') for n in _T] + [dict(name='canary_must_fail', props=[], canary=True, text='must fail', bound='')])
+    functions=['raw_class_file/src/lib.rs::ClassFile::read', 'raw_class_file/src/lib.rs::ClassFile::write', 'raw_class_file/src/lib.rs::ClassFile::to_bytes',
+               'raw_class_file/src/lib.rs::ClassFile::length', 'raw_class_file/src/lib.rs::pool_has_utf8',
+               'raw_class_file/src/macros.rs::notation (every _read / _write / _len it derives: ClassFile, CpInfo, FieldInfo, MethodInfo, AttributeInfo, '
+               'StackMapFrame, VerificationTypeInfo, Annotation, ElementValue and the table entry structs)'],
+    trusted=[
+        'rawcls harness (kx/enum/rawcls.rs): own model of a class file (17 pool entry kinds, members, 28 attribute bodies incl. type annotations and unknown '
+        'attributes, stack map frames, element values), own byte builder `*_bytes` written from JVMS chapter 4 (attribute_length = length of the info built '
+        'separately; counts from the table lengths; constant_pool_count = 1 + slots, a Long / Double counting two), own conversion `*_value` into the crate\'s '
+        'types through their public fields, own skeleton walker `o_walk` (pool with the two-slot rule, members, attributes framed by attribute_length, names are '
+        'Utf8 entries, nothing after the class) that must accept every generated file and count the same tables; menus written by hand',
+        'which attribute kinds exist was taken from `enum AttributeInfo`, their layout from JVMS 4.7; the field names of the crate (e.g. `boostrap_arguments`, '
+        '`UnintializedThis`) are mapped to the JVMS item of the same name; RuntimeVisibleTypeAnnotations / RuntimeInvisibleTypeAnnotations have no variant in '
+        'the crate ("TODO"): the expected representation of them is the one of an unknown attribute, `Other { info }`, their bytes are built per JVMS 4.7.20',
+        'readings fixed: (a) "well-formed class file" = well-formed on the level the raw representation sees: magic, every tag, count, length and '
+        'attribute_length as JVMS 4.1-4.7 prescribe, every attribute_name_index a Utf8 entry, reserved frame types / unknown tags absent; constraints between '
+        'entries (4.4.x kinds of referenced entries beyond what the menus respect, 4.8-4.10, which attributes may stand together or in which table, module-info '
+        'rules, uniqueness of members) are not demanded, so the universe is a superset of the files a JVM accepts and a reader that checked them would be '
+        'reported (the crate documents "no format checking"); (b) "equal value" = derived PartialEq of ClassFile; (c) "announced length" = ClassFile::length(); '
+        '"bytes written" = what write hands to a Vec<u8>, and to_bytes must give the same bytes; (d) "every raw representation" = every value whose variants '
+        'agree with the Utf8 names their attribute_name_index points to (Other only under names the crate does not model) and whose tables fit their count items '
+        '(<= 255 / 65535 entries; chop k and append locals 1..=3; same_frame / same_locals_1 offset_delta <= 63): a value that says `Other` under the name Code, or '
+        '`Code` under the name Foo, cannot be read back equal by any name-dispatching reader and is outside; values that are no well-formed files but fit (dangling '
+        'indices, Utf8 bytes 4.4.7 forbids, reference_kind 0 / 255, empty code array, code_length >= 65536) are asked the value side only (test raw_values_..., '
+        'two cases of code_attributes); (e) when the value read equals the value built directly, clauses (2) (3) (4) are not evaluated a second time: write, '
+        'to_bytes, length and read are functions of the compared fields, so they coincide with (6) (7) (8)',
+        'classes whose pool contains a Long or Double are separated into the tests pools_with_long_double, attributes_with_long_double_pool and '
+        'counts_at_their_bounds_with_long_double_pool (same oracle, nothing special-cased) so that one defect of the pool code does not hide the attribute results; '
+        'all other tests use pools of one-slot entries only',
+        'outside the universe: malformed or truncated files (C16), tables longer than their count item, files larger than ~35 MB, attribute_name_index 0 or not a '
+        'Utf8, pools of more than 4 enumerated entries next to the base (except the two 65535-slot pools), element values nested deeper than 4, stack map tables of '
+        'more than 3 enumerated frames (plus one of 25 and the 65535-frame table), writers that fail (only Vec<u8> is used) and readers other than a byte slice, '
+        'the cross-read by duke::read_class named in the property (only the own walker and the own builder stand for "other readers"); corpus = the 4 loose .class '
+        'files of the repository (raw_class_file has no zip dependency, jars are not opened)',
+    ],
+    tests=[
+        dict(name='pools_without_long_double', props=['C20'], tier='quick', timeout=600,
+             text='constant pools of one-slot entries and the ClassFile items around the pool: ' + _ORACLE,
+             bound='159 710 classes: every sequence of 0..4 entries over 19 shapes (Utf8 empty / "a" / modified UTF-8 of U+0000, U+20AC and a surrogate pair / "Code" as a '
+                   'second entry with the content of an attribute name; Integer, Float, Class, String, Fieldref, Methodref, InterfaceMethodref, NameAndType, MethodHandle kind 1 '
+                   'and 9, MethodType, Dynamic, InvokeDynamic, Module, Package), sequences of 1..3 entries at each of 4 places (before the base; between base and attribute '
+                   'names; after the first name; after all names), sequences of 4 between base and names: 1 + 4 x (19 + 361 + 6 859) + 130 321 = 159 278; each class has a '
+                   'field with ConstantValue, a method with Code containing LineNumberTable and a SourceFile attribute (names looked up on three levels); + 432 classes '
+                   'over minor {0, 3, 65535} x major {45, 52, 65, 65535} x access_flags {0, 0x0021, 0xFFFF} x super_class {0, a class} x 0..2 interfaces, with and without '
+                   'members and attributes; ' + _BASE),
+        dict(name='pools_with_long_double', props=['C20'], tier='quick', timeout=600,
+             text='constant pools containing 8-byte constants (JVMS 4.4.5: a Long / Double takes two entries; constant_pool_count and every later index count both): ' + _ORACLE,
+             bound='74 096 classes: the 21-shape menu (the 19 shapes + Long + Double), every sequence of 1..4 entries that contains at least one Long or Double, sequences of 1..3 '
+                   'at each of the 4 places, sequences of 4 between base and names: 4 x (2 + 80 + 2 402) + 64 160; shortest first (the first case is the pool [Long] ++ base ++ '
+                   'names); same class around the pool as in pools_without_long_double, all indices computed with the two-slot rule'),
+        dict(name='class_level_attributes', props=['C20'], tier='quick', timeout=600,
+             text='attributes of the ClassFile structure, alone, in twos and in threes: ' + _ORACLE,
+             bound='70 687 classes: menu of 80 shapes: SourceFile; SourceDebugExtension of 0 / 1 / 20 / 300 bytes; InnerClasses with 0..3 classes (zero and non-zero outer / name '
+                   'indices, flags 0xFFFF); EnclosingMethod with and without method; Synthetic; Deprecated; Signature; Runtime(In)VisibleAnnotations with 0 / 1 / 2 annotations (0..2 '
+                   'pairs, array value); Runtime(In)VisibleTypeAnnotations with 0 / 1 / 2 annotations; BootstrapMethods with 0..3 methods of 0 / 1 / 2 / 5 arguments; NestHost; NestMembers, '
+                   'PermittedSubclasses with 0..3 classes; ModulePackages with 0..2; ModuleMainClass; Module (minimal and with one row in every table); Record with 0 / 1 / 2 components '
+                   '(with Signature / annotations inside); 30 unknown attributes = 10 names (Foo, empty name, code, CodeX, Cod, SourceFil, NestMember, "Synthetic ", '
+                   'RuntimeVisibleTypeAnnotationsX, org.example.Custom: near misses of modelled names) x info of 0 / 1 / 5 bytes; every ordered selection of 0, 1, 2 shapes with '
+                   'different names; every ordered selection of 3 out of 22 representatives (the fullest shape of each of the 19 kinds + 3 unknown) and of 3 out of every second '
+                   'shape of the menu (40); ' + _BASE),
+        dict(name='field_and_method_attributes', props=['C20'], tier='quick', timeout=600,
+             text='attributes of field_info and method_info, 0..3 fields and 0..3 methods: ' + _ORACLE,
+             bound='66 420 classes: field menu of 16 shapes (ConstantValue of Integer / String / Float, Synthetic, Deprecated, Signature, visible / invisible annotations, type annotations '
+                   'with target 0x13, unknown Foo / ConstantValu / empty name), method menu of 44 shapes (Exceptions with 0..3 classes; MethodParameters with 0 / 1 / 2 / 255 parameters, '
+                   'name_index 0 included; Runtime(In)VisibleParameterAnnotations with 0 / 1 / 2 / 3 / 255 parameters of 0..2 annotations; AnnotationDefault with 7 element values; '
+                   'Signature, Synthetic, Deprecated, annotations, type annotations of method targets, Code without and with exception table and LineNumberTable, unknown Foo / '
+                   'MethodParameter / "Exceptions."); one field / one method with every ordered selection of 0..3 shapes with different names (2 024 + 63 780), and 616 classes with '
+                   '0..3 fields x 0..3 methods (access_flags 0 / 0xFFFF) whose last field / first method carries no or one attribute'),
+        dict(name='code_attributes', props=['C20'], tier='quick', timeout=600,
+             text='the Code attribute: code array, exception table, nested attributes (a nested attribute must neither be dropped nor miscounted in attribute_length): ' + _ORACLE,
+             bound='12 638 classes: nested menu of 22 shapes (StackMapTable with 0 / 1 / 4 / 5 / 25 frames; LineNumberTable with 0..3 rows; LocalVariableTable and LocalVariableTypeTable '
+                   'with 0..2 rows, values 65535; type annotations with Code targets; unknown Foo / LineNumberTabl / StackMapTable2); every ordered selection of 0..2 nested shapes with '
+                   'different names (437) x 3 code arrays (return; aload_0 invokespecial return; a tableswitch with padding) x 4 exception tables (0..3 rows, catch_type 0 and a '
+                   'class) with max_stack / max_locals cycling through (0,0), (1,1), (65535,65535), (2,65535) = 5 244; every selection of 3 nested shapes and 500 triples of '
+                   'LineNumberTable / LocalVariableTable / LocalVariableTypeTable attributes with repeated names (7 052); Code before / after another method attribute, second method '
+                   'with Code (336); code_length 1 / 255 / 256 / 65535 as files and 65536 / 70000 as values'),
+        dict(name='stack_map_frames', props=['C20'], tier='quick', timeout=600,
+             text='StackMapTable: every frame kind of JVMS 4.7.4 with every verification_type_info: ' + _ORACLE,
+             bound='22 336 classes (method, Code, StackMapTable): menu of 77 frames: same_frame 0 / 1 / 63; same_locals_1_stack_item_frame 64 with each of 10 verification types (Top, Integer, '
+                   'Float, Double, Long, Null, UninitializedThis, Object, Uninitialized 0 / 65535) and 127, 65; ..._extended with each type and offset_delta 0 / 300 / 65535; chop_frame '
+                   'k = 1..3 x offset_delta 0 / 65535; same_frame_extended 0 / 64 / 65535; append_frame with 1 local (10), 2 locals (9), 3 locals (8); full_frame with 0..3 locals x '
+                   '0..2 stack items and one with 10 + 10; tables of 0 and 1 frame (78), every pair (5 929), every triple of 25 representatives (15 625), every frame_type 0..=63 '
+                   'and every frame_type 64..=127 with every verification type (704)'),
+        dict(name='annotations_and_element_values', props=['C20'], tier='quick', timeout=600,
+             text='Runtime(In)VisibleAnnotations, Runtime(In)VisibleParameterAnnotations, Runtime(In)VisibleTypeAnnotations, AnnotationDefault with every element_value tag: ' + _ORACLE,
+             bound='11 968 classes: 46 element values (the 9 constant tags B C D F I J S Z s, enum, class, annotations with 0..2 pairs, arrays with 0..3 values, nesting up to depth 4); '
+                   'visible and invisible each: one annotation with 1 pair (46) and with 2 pairs (16 x 12) and 0..3 annotations over 4 shapes (85), each on the class, a field, a method '
+                   '(after Signature) and a record component (before Signature); parameter annotations with 0..3 parameters over 4 annotation lists (85); type annotations: every '
+                   'target_type of JVMS table 4.7.20-A/B in the place table 4.7.20-C allows (class 0x00 0x10 0x11; method 0x01 0x12 0x14 0x15 0x16 0x17; field and record component '
+                   '0x13; Code 0x40..0x4B, localvar tables of 0..3 rows) x 3 type paths (0 / 1 / 3 entries) x 3 pair lists, alone and in twos (54 / 72 / 9 / 153 annotations per place); '
+                   'AnnotationDefault with each of the 46 values and with every array of two of them (2 162)'),
+        dict(name='modules_and_records', props=['C20'], tier='quick', timeout=600,
+             text='Module (with ModulePackages, ModuleMainClass, an unknown ModuleTarget next to it) and Record with component attributes: ' + _ORACLE,
+             bound='2 386 classes: Module with requires 0..2 x exports {none, to nobody, to 1, to 2, two rows} x opens (same 5) x uses 0..2 x provides {none, with 1, with 2, two rows} x '
+                   '(flags, version) {(0, 0), (0x9020, set)} = 1 800, the accompanying attribute list cycling through 5 lists before / after the Module; Record with 0..3 components, '
+                   'each with one of 8 attribute lists (none, Signature, visible / invisible annotations, type annotation, unknown, three attributes, Deprecated + empty-named unknown), '
+                   'with and without Signature and PermittedSubclasses next to it = 586'),
+        dict(name='several_attributes_together', props=['C20'], tier='quick', timeout=600,
+             text='attributes on all levels of one class at once, and equal attribute names given by different Utf8 entries: ' + _ORACLE,
+             bound='4 489 classes: 6 class attribute lists (0 / 1 / 6 / 8 / 8 / 22 attributes) x 5 field lists x 4 method lists x 6 lists nested in Code (0..5 attributes, repeated '
+                   'LineNumberTable / LocalVariableTable) x 6 class shapes (1..3 fields, 1..3 methods, interfaces, Record component carrying the field list, a second Code named by a '
+                   'second Utf8 "Code") = 4 320; + 13 x 13 classes where two attributes out of 13 (annotations, Signature, Deprecated, Synthetic, type annotation, unknown) stand on '
+                   'the class, on two fields and on two methods, each occurrence naming its own Utf8 entry of equal content'),
+        dict(name='attributes_with_long_double_pool', props=['C20'], tier='quick', timeout=600,
+             text='every attribute shape in a class whose pool contains a Long / Double (the attribute name and every index are found with the two-slot rule): ' + _ORACLE,
+             bound='4 996 classes: 8 pool layouts (Long first; Double first; Long between base and names; Double after the first attribute name; Long last; Long first and Double '
+                   'last; Double Long Integer between base and names; Utf8 Long Utf8 Double first) x (the 80 class shapes + 16 field shapes + 44 method shapes + 22 shapes nested in Code, '
+                   'each alone, + 462 ordered pairs of the 22 class representatives next to a field with ConstantValue) + a field whose ConstantValue is the 8-byte constant itself'),
+        dict(name='counts_at_their_bounds', props=['C20'], tier='quick', timeout=600,
+             text='every count item at its largest value (u1: 255, u2: 65535) and u4 lengths above 65535: ' + _ORACLE,
+             bound='34 classes: 65535 interfaces / fields / methods / class attributes / attributes of one field / InnerClasses rows / bootstrap methods / bootstrap arguments / NestMembers / '
+                   'PermittedSubclasses / ModulePackages / Record components / attributes of one component / annotations / pairs / array values / type annotations (type_path of 255) / rows of '
+                   'every Module table incl. exports_to, opens_to, provides_with / Exceptions / exception table rows / attributes in Code / LineNumberTable, LocalVariableTable, '
+                   'LocalVariableTypeTable rows / stack map frames / locals and stack items of a full_frame / localvar_target rows; 255 MethodParameters; 255 parameters (one with 65535 '
+                   'annotations), visible and invisible; SourceDebugExtension of 100 000 and an unknown attribute of 70 000 bytes; a Utf8 of 65535 bytes; constant_pool_count 65535'),
+        dict(name='counts_at_their_bounds_with_long_double_pool', props=['C20'], tier='quick', timeout=600,
+             text='constant_pool_count at and near its bound when 8-byte constants fill the pool: ' + _ORACLE,
+             bound='3 classes: a Long as the last entry of the pool of a class without attributes (constant_pool_count 23); constant_pool_count 65535 with 32 756 Long entries between base '
+                   'and names; the same with 32 756 Double entries at the end (the last one in slots 65533 and 65534)'),
+        dict(name='raw_values_that_are_no_well_formed_files', props=['C20'], tier='quick', timeout=600,
+             text='raw values no well-formed file contains but the public fields can say, value side only: (6) write(v) is the JVMS layout of the fields, (7) length() == bytes written, '
+                  '(8) read(write(v)) == v, no panic',
+             bound='6 935 values: every shape of the class / field / method / Code menus and every one of the 77 frames with every index item set to 0, to 65535 and to 1 (an Utf8 where '
+                   'another kind is required), attribute names resolvable (3 x 239); pools with 1, 2 and 3 out of 21 entries JVMS forbids (Utf8 with byte 0 / 0xff 0xfe 0xf0 / truncated '
+                   'sequences; MethodHandle kind 0 and 255; dangling, zero and wrong-kind references) between base and names and after the names (2 x 3 108); Code with an empty code '
+                   'array; this_class 0, super_class 65535, members named by index 0'),
+        dict(name='corpus_class_files', props=['C20'], tier='quick', timeout=600,
+             text='the loose .class files of the repository: the own walker accepts the file; read is Ok, consumes the file and sees as many pool entries, fields, methods and class '
+                  'attributes as the walker; write(read(bytes)) == bytes; to_bytes the same; length() == bytes written; read(write(v)) == v',
+             bound='4 files: raw_class_file/tests/simple_expected.class, src/specialized_methods/test/{Node, MyNode, SpecializedMethods}.class'),
+        dict(name='canary_must_fail', props=[], canary=True, text='must fail', bound=''),
+    ])
